@@ -141,7 +141,9 @@ def rule_copy_routines(ctx, cfg, r):
             for st in paths.subterms(recv):
                 if st and st[0] == "call" and "index_mut" in st[1] and st[2][1][0] == "agg" and st[2][1][1].endswith("Range"):
                     rng = st[2][1][4]
-            v_ok = val[0] == "load" and val[1][0] == "idx" and val[1][1] == ("deref", OUT) and lsub(lin(O0), lin(val[1][2])) == (1, {})
+            # the fill byte is the byte just before pos: written as out[pos - 1], or as out[source] once displacement == 1 is known
+            v_ok = val[0] == "load" and val[1][0] == "idx" and val[1][1] == ("deref", OUT) and \
+                (lsub(lin(O0), lin(val[1][2])) == (1, {}) or (disp1 and fwd and lin(val[1][2]) == lin(S0)))
             good = rng is not None and uncast(rng[0]) == O0 and disp1 and fwd and v_ok and lin(O1) == lin(rng[1]) and lsub(lin(O1), lin(S1)) == (1, {})
             if good:
                 n_fill += 1
